@@ -135,6 +135,18 @@ def _discharged(model: Model, g: FuncInfo, st: ast.Assert) -> bool:
             return False
         sl.insert(0, p2)
         need |= _reads(p2)
+    # a statement at the head of the slice that the domain cannot follow (a subscript into a table, a string operation ..) makes
+    # what it binds an arbitrary value: drop it and try again with its targets free (an over-approximation, hence sound)
+    while True:
+        try:
+            return _attempt(model, g, st, sl, test)
+        except Inconclusive:
+            if not sl:
+                raise
+            sl = sl[1:]
+
+
+def _attempt(model: Model, g: FuncInfo, st: ast.Assert, sl: list, test: ast.AST) -> bool:
     assigned: set = set()
     free: set = set()
     for s in sl + [ast.Expr(value=test)]:
